@@ -145,6 +145,7 @@ def merge_slices(reps):
         m["models"] = m.get("models", []) + r.get("models", [])
         m["dropped"] = sorted(set(m.get("dropped", []) + r.get("dropped", [])))
         m["assumed"] = sorted(set(m.get("assumed", []) + r.get("assumed", [])))
+        m["suspicious"] = sorted(set(m.get("suspicious", []) + r.get("suspicious", [])))
         if rank.get(r["status"], 0) > rank.get(m["status"], 0):
             m["status"], m["reason"] = r["status"], r.get("reason", "")
     res = []
